@@ -40,3 +40,7 @@ PENDING.pop("C09", None)
 _p("C19", "other",
    "Static necessary conditions of 'unit-timing normalisation preserves the lock-step schedule': per-field information-flow necessity for header fields and subcircuit annotation/count through BlockNormalizer (and that the unrolling helper reads the annotation before dissolving a block); in every generator loop of the pass each iterated element is appended/extended/yielded or rejected on every path (CFG path query, None-padding filter recognised); a LoopStatement met while chunking raises JaqalError. Decides those clauses for all programs; does not decide equality of time steps.")
 PENDING.pop("C19", None)
+
+_p("C10", "other",
+   "Static necessary conditions of 'passes commute, are idempotent and keep circuits legal': in parse_jaqal_string each flag guards exactly the call of its pass on the running circuit value, override_dict is forwarded, and alias fill-in is dominated by let substitution (CFG); wherever a gate may expand to a macro body the rebuilding visitor splices same-kind child blocks (legal nesting); MapFiller visits every container that can hold qubit references and preserves every field the other passes consume (field-flow necessity). The elimination clauses behind idempotence are decided under C04.4, C05.1 and C09.2. Does not decide commutation up to meaning.")
+PENDING.pop("C10", None)
